@@ -63,10 +63,42 @@ func H_C11_list() {
 	if dl := vChoice("delimiter.len", 0, vBound("delimlen", 1, 2)); dl > 0 {
 		delim = c11Str("delimiter", dl)
 	}
-	maxResults := vChoice("maxResults", 1, 3)
+	c11Run(g, names, prefix, delim, vChoice("maxResults", 1, 3))
+	vReach("c11-list")
+}
 
+// c11FileUniverse: object names for the file-backed store, in ascending bytewise order. They nest
+// directories and include names that differ by characters sorting below '/' ('.' < '/' < '0').
+var c11FileUniverse = []string{"a.t", "a/b", "a/b.c", "a/c/e", "a0", "b"}
+
+// H_C11_list_file: the same listing contract on the file-backed store (over the file-system
+// model), for every subset of a small universe of names.
+func H_C11_list_file() {
+	g := vNewEmuOn(1)
+	var names []string
+	for _, nm := range c11FileUniverse {
+		if vChoice("present", 0, 1) == 1 {
+			names = append(names, nm)
+		}
+	}
+	if len(names) == 0 {
+		g.store.CreateBucket("b")
+	}
+	for _, nm := range names {
+		vPut(g, "b", nm, []byte("c"))
+	}
+	prefix := []string{"", "a", "a/", "a.", "a/b", "b", "a/c/"}[vChoice("prefix", 0, 6)]
+	delim := []string{"", "/", ".", "b"}[vChoice("delimiter", 0, 3)]
+	c11Run(g, names, prefix, delim, vChoice("maxResults", 1, 3))
+	vReach("c11-list-file")
+}
+
+// c11Run pages through a listing of bucket b and compares it with the reference.
+func c11Run(g *GcsEmu, names []string, prefix, delim string, maxResults int) {
+	n := len(names)
 	// follow nextPageToken until it is empty
 	var items []string
+	var itemObjs []*storage.Object
 	var prefixes []string
 	token := ""
 	pages := 0
@@ -97,6 +129,7 @@ func H_C11_list() {
 		vAssert(len(page.Items)+len(page.Prefixes) <= maxResults, "page-holds-at-most-maxResults-entries")
 		for _, it := range page.Items {
 			items = append(items, it.Name)
+			itemObjs = append(itemObjs, it)
 		}
 		prefixes = append(prefixes, page.Prefixes...)
 		pages++
@@ -170,12 +203,19 @@ func H_C11_list() {
 	} else {
 		vAssert(len(prefixes) == 0, "no-prefixes-without-delimiter")
 	}
-	vReach("c11-list")
+	// each item's metadata equals what a metadata GET returns
+	for _, it := range itemObjs {
+		w := vNewRecorder()
+		g.handleGcsMetadataRequest(dontNeedUrls, w, "b", it.Name)
+		o := w.object()
+		vAssert(o != nil && vAnd(o.Generation == it.Generation, o.Metageneration == it.Metageneration) && o.Size == it.Size && o.Md5Hash == it.Md5Hash,
+			"listed-metadata-equals-metadata-get")
+	}
 }
 
 // H_C11_errors: missing bucket 404, malformed token or maxResults 400.
 func H_C11_errors() {
-	g := vNewEmu()
+	g := vNewEmuOn(vChoice("store", 0, 1))
 	vPut(g, "b", "x", []byte("c"))
 	w := vNewRecorder()
 	g.handleGcsListBucket(vCtx(), dontNeedUrls, w, url.Values{}, "nosuch")
@@ -205,5 +245,6 @@ func H_C11_errors() {
 
 func init() {
 	vHarnesses["H_C11_list"] = H_C11_list
+	vHarnesses["H_C11_list_file"] = H_C11_list_file
 	vHarnesses["H_C11_errors"] = H_C11_errors
 }
